@@ -221,9 +221,126 @@ Section Tie.
     - intro H. split; [| tauto].
       destruct (Req_dec (e "residuals()") (2 * / 1)); tauto.
     - repeat split; intros; try discriminate; try tauto; try lra.
-    - repeat split; intros; try tauto; try lra.
+    - split; intro Hs; split.
       + right; reflexivity.
-      + match goal with H : FReturn _ = FReturn _ |- _ => inversion H; lra end.
+      + intro H1; inversion H1; lra.
       + left; reflexivity.
+      + intros _; exact Hs.
+  Qed.
+
+  (* ---------------------------------------------------------------- solid solutions *)
+
+  Lemma ss_acc_spec : forall e m,
+      wp ss_acc (upd e ss_bind_var m)
+         (fun e' _ => e' "n_tot" = e "n_tot" + clamp (e "MIN_TOTAL_SS") m /\ e' "MIN_TOTAL_SS" = e "MIN_TOTAL_SS").
+  Proof.
+    intros e m. unfold ss_acc, ss_bind_var, clamp. cbn. q2r.
+    destruct (Rlt_dec m 0) as [Hm|Hm]; split; intro H; try lra; split; lra.
+  Qed.
+
+  Lemma ss_frac_spec : forall e m,
+      wp ss_frac (upd e ss_bind_var m)
+         (fun e' _ => e' ss_frac_var = clamp (e "MIN_TOTAL_SS") m / e "n_tot"
+                      /\ e' "n_tot" = e "n_tot" /\ e' "MIN_TOTAL_SS" = e "MIN_TOTAL_SS").
+  Proof.
+    intros e m. unfold ss_frac, ss_bind_var, ss_frac_var, clamp. cbn. q2r.
+    destruct (Rlt_dec m 0) as [Hm|Hm]; split; intro H; try lra; repeat split; lra.
+  Qed.
+
+  Lemma ss_acc_loop : forall ms e,
+      wp_foreach fun1 fun2 ss_acc ss_bind_var ms e
+        (fun e1 => e1 "n_tot" = e "n_tot" + sumR (map (clamp (e "MIN_TOTAL_SS")) ms)
+                   /\ e1 "MIN_TOTAL_SS" = e "MIN_TOTAL_SS").
+  Proof.
+    induction ms as [|m r IH]; intros e; cbn [wp_foreach map sumR].
+    - split; lra.
+    - eapply wp_mono; [| apply ss_acc_spec]. intros e' fl [H1 H2]. cbv beta in *.
+      eapply wp_foreach_mono; [| apply IH]. intros e'' [H3 H4]. cbv beta in *.
+      rewrite H3, H4, H1, H2. split; [lra | reflexivity].
+  Qed.
+
+  Lemma ss_frac_loop : forall ms e acc,
+      wp_collect fun1 fun2 ss_frac ss_bind_var ss_frac_var ms e acc
+        (fun _ xs => xs = (rev acc ++ map (fun m => clamp (e "MIN_TOTAL_SS") m / e "n_tot") ms)%list).
+  Proof.
+    induction ms as [|m r IH]; intros e acc; cbn [wp_collect map].
+    - rewrite app_nil_r. reflexivity.
+    - eapply wp_mono; [| apply ss_frac_spec]. intros e' fl (H1 & H2 & H3). cbv beta in *.
+      eapply wp_collect_mono; [| apply IH]. intros e'' xs Hxs. cbv beta in *.
+      rewrite Hxs, H1, H2, H3. cbn [rev]. rewrite <- app_assoc. reflexivity.
+  Qed.
+
+  (* calc_ss_fractions: for every list of component amounts with at least one non-zero entry the mole
+     fractions it stores are non-negative and sum to one *)
+  Lemma ss_fractions_simplex : forall ms e,
+      e "MIN_TOTAL_SS" = Q2R c_MIN_TOTAL_SS ->
+      e "n_tot" = 0 ->
+      (exists m, In m ms /\ m <> 0) ->
+      wp_foreach fun1 fun2 ss_acc ss_bind_var ms e (fun e1 =>
+        wp_collect fun1 fun2 ss_frac ss_bind_var ss_frac_var ms e1 []
+          (fun _ xs => length xs = length ms /\ Forall (fun x => 0 <= x) xs /\ sumR xs = 1)).
+  Proof.
+    intros ms e Hmin H0 Hex.
+    assert (Hpos : 0 < e "MIN_TOTAL_SS") by (rewrite Hmin; unfold c_MIN_TOTAL_SS; q2r; lra).
+    eapply wp_foreach_mono; [| apply ss_acc_loop]. intros e1 [H1 H2]. cbv beta in *.
+    eapply wp_collect_mono; [| apply ss_frac_loop]. intros e2 xs Hxs. cbv beta in *.
+    cbn [rev app] in Hxs. rewrite H1, H2, H0, Rplus_0_l in Hxs. subst xs.
+    pose proof (sumR_clamp_pos _ ms Hpos Hex) as HN.
+    set (N := sumR (map (clamp (e "MIN_TOTAL_SS")) ms)) in *.
+    split; [apply map_length | split].
+    - apply Forall_forall. intros x Hx. apply in_map_iff in Hx. destruct Hx as [m [<- _]].
+      pose proof (clamp_nonneg (e "MIN_TOTAL_SS") m Hpos).
+      unfold Rdiv. apply Rmult_le_pos; [assumption | left; apply Rinv_0_lt_compat; assumption].
+    - rewrite <- (map_map (clamp (e "MIN_TOTAL_SS")) (fun x => x / N)).
+      rewrite sumR_div. fold N. unfold Rdiv. apply Rinv_r. lra.
+  Qed.
+
+  (* x[i]->f of a solid-solution component row:  log K - log IAP + log10 x + log10 lambda *)
+  Lemma ss_f_value : forall e toks,
+      f_value fun1 fun2 ss_f_terms e toks =
+      e "x.phase.lk" - log_iap toks + e "x.phase.log10_fraction_x" + e "x.phase.log10_lambda".
+  Proof.
+    intros e toks. unfold f_value, ss_f_terms.
+    match goal with |- context [sum_tokens _ _ _ ?ts _] =>
+      assert (Ht : sum_tokens fun1 fun2 e ts toks = - log_iap toks) end.
+    { induction toks as [|[la c] r IH]; simpl; [lra|].
+      simpl in IH. rewrite IH. unfold tok_env, upd. cbn. lra. }
+    rewrite Ht. cbn. q2r. lra.
+  Qed.
+
+  (* component of a solid solution that is present: SI = log10 (x * lambda) within the tolerance *)
+  Lemma ss_component_activity : forall e toks,
+      row_env e ->
+      e "x.ss_in" <> Q2R c_FALSE ->
+      e "x.f" = f_value fun1 fun2 ss_f_terms e toks ->
+      e "residual" = eden e res_ss_residual ->
+      keeps "converge" res_ss e ->
+      Rabs ((log_iap toks - e "x.phase.lk") - (e "x.phase.log10_fraction_x" + e "x.phase.log10_lambda")) <= tolSI.
+  Proof.
+    intros e toks Hrow Hin Hf Hres Hk.
+    pose proof (row_env_log10 e Hrow) as HL.
+    destruct Hrow as (Htol & _ & _ & _ & Hit & Hc & Hr & Herr).
+    rewrite ss_f_value in Hf.
+    unfold keeps, res_ss, res_ss_residual, c_convergence_tolerance, c_TRUE, c_FALSE, tolSI in *.
+    cbn in Hk, Hres, Htol. q2r.
+    assert (Hb : Rabs (e "residual") <= e "convergence_tolerance") by lra.
+    clear Hk. rewrite Hres in Hb.
+    assert (Hb' : - e "convergence_tolerance" <= e "x.f" * e "LOG_10" <= e "convergence_tolerance")
+      by (revert Hb; unfold Rabs; destruct (Rcase_abs _); lra).
+    destruct Hb' as [Hb1 Hb2].
+    assert (- e "convergence_tolerance" <= e "x.f") by (apply scale_lower with (L := e "LOG_10"); lra).
+    assert (e "x.f" <= e "convergence_tolerance") by (apply scale_upper_le with (L := e "LOG_10"); lra).
+    apply Rabs_le. lra.
+  Qed.
+
+  (* ideal solid solutions: calc_ss_fractions dispatches to ss_ideal, which sets log10 lambda = 0, hence
+     (with ss_component_activity) activity = mole fraction *)
+  Lemma ideal_activity_is_fraction : forall e,
+      e "ss_ptr.a0" = 0 -> e "ss_ptr.a1" = 0 ->
+      wp ss_dispatch e (fun e1 _ => e1 "called:ss_ideal" = 1 /\ e1 "called:ss_binary" = e "called:ss_binary") /\
+      wp ss_ideal_body e (fun e1 _ => e1 ss_lambda_var = 0).
+  Proof.
+    intros e H0 H1. unfold ss_dispatch, ss_ideal_body, ss_lambda_var. cbn. q2r.
+    repeat split; intros; try lra; try tauto.
   Qed.
 End Tie.
